@@ -125,6 +125,9 @@ def run(ctx):
     check_frame(ctx)
     check_two_point(ctx)
     c01.check_interval_loop(ctx)
+    c01.check_dtype(ctx, rule='C03.5')
+    from . import c10
+    c10.check_dispatcher(ctx)       # which sample is pinned for a reference point is decided by the neighbour search the strategy name selects
     ctx.trust('field axioms; Abs(c*e)=|c|*Abs(e); Abs(e)=e for e declared positive: x[-1]-x[0]; Pow(1,a)=1, Pow(0,a)=0')
     ctx.assume('alpha > 0; strictly increasing x; every window holds at least one interior sample (else the documented [1,1] case)',
                'smoothing (s given) is outside the rule')
